@@ -2181,11 +2181,11 @@ int tls_ctx_set_certificate_and_key(TLS_CTX *ctx, const char *chainfile,
 	if (x509_certs_get_cert_by_index(certs, certslen, 0, &cert, &certlen) != 1
 		|| x509_cert_get_subject_public_key(cert, certlen, &public_key) != 1) {
 		error_print();
-		return -1;
+		goto end;
 	}
 	if (sm2_public_key_equ(&key, &public_key) != 1) {
 		error_print();
-		return -1;
+		goto end;
 	}
 	ctx->certs = certs;
 	ctx->certslen = certslen;
